@@ -1066,6 +1066,13 @@ def txns_for(C, key, blocks):
                         emit([["undel"] + tgt], end)
                     else:
                         emit([["ddoc"] + tgt, ["undel"] + tgt], end)
+            # swap: one document comes back and another one goes in the same
+            # transaction (the number of deletions stays the same)
+            for n1, d1 in enumerate(phys):
+                for n2, d2 in enumerate(phys):
+                    if d1[3] and not d2[3]:
+                        for end in b["ends"]:
+                            emit([["undel", n1, d1[0], d1[1], d1[2]], ["ddoc", n2, d2[0], d2[1], d2[2]]], end)
             continue
         ops = ops_alpha(C, key, alpha)
         for n in b["n"]:
@@ -1502,6 +1509,12 @@ def root5():
             T([["upd", 1, 0]], "nomerge"), T([["upd", 2, 0]], "nomerge")]
 
 
+def root_del():
+    """One segment of three documents, one of them deleted by an earlier
+    commit (deleting and undeleting inside ONE segment needs this)."""
+    return [T([["add", 0, 0], ["add", 1, 1], ["add", 2, 2]], "nomerge"), T([["dkey", 1]], "nomerge")]
+
+
 def root5_two():
     return [T([["upd", 0, 0]], "nomerge"), T([["upd", 1, 2]], "nomerge"), T([["upd", 3, 0]], "nomerge"),
             T([["upd", 2, 2]], "nomerge"), T([["upd", 1, 0]], "nomerge")]
@@ -1544,6 +1557,10 @@ def plans(tier, seed):
         P.append({"id": "id/ram/5seg", "cfg": cfg("id", ixmode="reopen"), "root": root5(), "levels": [
             [B("full", [0, 1], E6, ix=True), B("lite", [2], MRG)],
             [B("lite", [0, 1], E5)]]})
+        P.append({"id": "id/ram/undel", "cfg": cfg("id"), "root": root_del(), "levels": [
+            [UND, B("lite", [0, 1], E3)],
+            [UND]]})
+        P.append({"id": "id/file/undel", "cfg": file_cfg, "root": root_del(), "levels": [[UND]]})
         P.append({"id": "num/ram/deep", "cfg": cfg("num"), "root": [], "levels": [
             [B("full", [0, 1], E6, ix=True), B("core", [2], E3)],
             [B("core", [0, 1], E5)],
@@ -1582,6 +1599,11 @@ def plans(tier, seed):
         [B("full", [0, 1], E6, ix=True), B("core", [2], MRG)],
         [B("core", [0, 1], E5)],
         [B("slite", [0, 1], MRG)]]})
+    P.append({"id": "id/ram/undel", "cfg": cfg("id"), "root": root_del(), "levels": [
+        [UND, B("core", [0, 1], E5)],
+        [UND, B("lite", [0, 1], E3)],
+        [UND]]})
+    P.append({"id": "id/file/undel", "cfg": file_cfg, "root": root_del(), "levels": [[UND], [UND]]})
     P.append({"id": "num/ram/deep", "cfg": cfg("num"), "root": [], "levels": [
         [B("full", [0, 1, 2], E6, ix=True)],
         [B("core", [0, 1], E5)],
